@@ -118,6 +118,13 @@ where
                             }
                             Err((mut event, err)) => {
                                 event.ingest = ProcessorStatus::Failed(err);
+
+                                // An operation which failed validation (invalid signature,
+                                // not a continuation of its log, etc.) is not allowed to prune
+                                // anything: it did not enter the log and its author and prune
+                                // flag are unverified claims.
+                                event.skip_log_prune();
+
                                 event
                             }
                         })
